@@ -41,7 +41,19 @@ POOL = {
     'L2': ('L', (6.5 + 2j, 1 - 1j)),
     'C2': ('C', (1 - 1j, 0.5 + 0.25j, -1 + 1j, 0j)),
     'A2': ('A', (0j, 2 + 1.5j, -35.0, True, False, 1.5 + 0.5j)),
+    # segment-level only: coordinates whose reassignment partner has the SAME Python hash
+    # (hash(-1.0) == hash(-2.0); hash(1j) == hash(1000003))
+    'Lh': ('L', (-1 + 0j, 3 - 1j)),
+    'Qh': ('Q', (-1 + 0j, 1j, 3 - 1j)),
+    'Ch': ('C', (-1 + 0j, 1 - 1j, 2 + 2j, 3 - 1j)),
+    'Ch2': ('C', (-1 + 0j, 1j, 2 + 2j, 3 - 1j)),
 }
+PATH_POOL = ['L', 'C', 'A', 'Q', 'L2', 'C2', 'A2']
+# for each hash-colliding kind: the values an attribute toggles between (first = the partner)
+HVALS = {'Lh': {'start': [-2 + 0j, -1 + 0j], 'end': [3 - 2j, 3 - 1j]},
+         'Qh': {'start': [-2 + 0j, -1 + 0j], 'c1': [1000003 + 0j, 1j], 'end': [3 - 2j, 3 - 1j]},
+         'Ch': {'start': [-2 + 0j, -1 + 0j], 'c1': [1 - 2j, 1 - 1j], 'end': [3 - 2j, 3 - 1j]},
+         'Ch2': {'start': [-2 + 0j, -1 + 0j], 'c1': [1000003 + 0j, 1j], 'end': [3 - 2j, 3 - 1j]}}
 PTS = {'z0': 0j, 'z1': 7 + 3j, 'z2': 1 - 1j, 'z3': -2 + 0.5j, 'z4': 2 + 1j}
 TOLS = {'T0': (1e-12, 5), 'T1': (1e-2, 5), 'T2': (1e-3, 8)}      # T0 = (LENGTH_ERROR, LENGTH_MIN_DEPTH)
 INITS = {'I0': [], 'I1': ['L'], 'I2': ['L', 'C', 'A']}
@@ -53,6 +65,7 @@ ALPHABET = [
     ['delitem', 0], ['delslice', 1, None], ['pop', -1], ['reverse'],
     ['setstart', 'z1'], ['setend', 'z0'], ['remove', 'L'],
     ['qlength', 'T0'], ['qlength', 'T1'], ['qlength', 'T2'], ['qt2t', 0.3], ['qstart'], ['qend'],
+    ['qhash'], ['qeq'],
 ]
 BATTERY = [['qlen'], ['qeq'], ['qhash'], ['qd', False], ['qd', True], ['qbbox'], ['qstart'], ['qend'],
            ['qlength', 'T0'], ['qt2t', 0.3], ['qpoint', 0.3], ['qpoint', 0.7], ['qt2t', 1.0], ['qpoint', 0.0]]
@@ -213,19 +226,25 @@ def is_query(ev):
 def seg_cache(s):
     P = impl()
     if isinstance(s, P.CubicBezier):
-        li = s._length_info
-        if li['length'] is None:
-            return None
-        b = li['bpoints']
-        return ('C', ('C', complex(b[0]), complex(b[3]), (complex(b[1]), complex(b[2]))),
-                (float(li['error']), int(li['min_depth'])), float(li['length']))
+        try:
+            li = s._length_info
+            if li['length'] is None:
+                return None
+            b = li['bpoints']
+            return ('C', ('C', complex(b[0]), complex(b[3]), (complex(b[1]), complex(b[2]))),
+                    (float(li['error']), int(li['min_depth'])), float(li['length']))
+        except Exception as e:      # noqa: a cache the model does not know; reported, not fatal
+            return ('?', '%s: %r' % (type(e).__name__, getattr(s, '_length_info', None)))
     if isinstance(s, P.Arc):
-        if s.segment_length_hash is None:
-            return None
-        h = s.segment_length_hash
-        if isinstance(h, tuple):       # repaired variant: (hash, error, min_depth)
-            h = h[0]
-        return ('A', h == hash(s), float(s.segment_length))
+        try:
+            if s.segment_length_hash is None:
+                return None
+            h = s.segment_length_hash
+            if isinstance(h, tuple):       # repaired variant: (hash, error, min_depth)
+                h = h[0]
+            return ('A', h == hash(s), float(s.segment_length))
+        except Exception as e:      # noqa
+            return ('?', '%s' % type(e).__name__)
     return None
 
 
@@ -283,6 +302,8 @@ def classify_length(cfg, init, prefix, qev):
         if canon(got) != canon(want):
             if c[0] == 'A':
                 return 'arc-cache-ignores-tolerance'
+            if c[0] == '?':
+                return 'segment-length-cache-unknown'
             ce, cd = c[2]
             # a value computed with a LOOSER error reused: the inverted test; otherwise a value
             # computed with stricter arguments (deeper min_depth / tighter error) is reused
@@ -335,7 +356,7 @@ def run_history(cfg, init, events, battery, want_case):
                 elif emptied_setter and len(p) == 0:
                     key = 'setter-on-empty-path'
                 elif ev[0] == 'qhash':
-                    key = 'path-eq-hash-closed'
+                    key = 'path-eq-hash-closed' if got == ('s', 'closed=True') else 'path-hash-stale'
                 else:
                     key = 'unclassified-' + ev[0]
                 viols.append((key, '%s answers %r, a new Path of the current segments answers %r' % (ev, got, want), idx))
@@ -346,6 +367,16 @@ def run_history(cfg, init, events, battery, want_case):
             outs.append(('m', ev, out, None))
             for s in p._segments:
                 datas.add(seg_data(s))
+            # equal => equal hash, against a fresh Path, after every mutation (on a copy: asking
+            # the path itself would be a query, and queries are events of their own)
+            try:
+                q = copy.deepcopy(p)
+                f = fresh_path(q)
+                if q == f and hash(q) != hash(f):
+                    viols.append(('path-hash-stale', 'after %s the path equals a new Path of its segments but '
+                                  'hashes differently' % (ev,), idx))
+            except Exception as e:      # noqa
+                viols.append(('path-eq-hash-raises', 'after %s: == / hash raised %s' % (ev, type(e).__name__), idx))
             if ev[0] in ('setstart', 'setend') and empty_before:
                 emptied_setter = True
             if out[0] == 'EXC' and ref[0] != 'EXC':
@@ -385,7 +416,7 @@ def all_finite(outs, p):
         return False
     for s in p._segments:
         c = seg_cache(s)
-        if c is not None and not fin(c[-1]):
+        if c is not None and c[0] != '?' and not fin(c[-1]):
             return False
     return True
 
@@ -619,6 +650,8 @@ def oval_term(r, nm):
 def cache_term(c, nm):
     if c is None:
         return 'ONoC'
+    if c[0] == '?':
+        return 'OCacheOther'
     if c[0] == 'C':
         return '(OCubic %s %s %s)' % (nm.sd(c[1]), tol_term(c[2]), qc(c[3]))
     return '(OArc %s %s)' % (coq_bool(c[1]), qc(c[2]))
@@ -806,7 +839,7 @@ def gen_random_history(rng):
     init = rng.choice(list(INITS))
     evs = []
     size = len(INITS[init])
-    names = list(POOL)
+    names = list(PATH_POOL)
     for _ in range(n):
         r = rng.random()
         idx = lambda: rng.randint(-size - 2, size + 2)
@@ -928,7 +961,13 @@ def work(job):
         if item[0] == 'seg':
             _, cfg, kind, ops, want = item
             g['n_seg'] += 1
-            for key, what, i in run_seg_history(cfg, kind, ops):
+            run_seg_history.case = None
+            try:
+                sviols = run_seg_history(cfg, kind, ops)
+            except Exception as e:     # noqa: report, never crash
+                import traceback
+                sviols = [('segment-history-raises', '%s %s: %s' % (kind, ops, traceback.format_exc()[-800:]), len(ops) - 1)]
+            for key, what, i in sviols:
                 if i != len(ops) - 1:
                     continue              # reported by the shorter history
                 g['seg_counts'][key] = g['seg_counts'].get(key, 0) + 1
@@ -973,39 +1012,99 @@ def work(job):
 
 # ------------------------------------------------------- segment level
 SEG_TOLS = {'S0': (1e-6, 5), 'S1': (1e-2, 5), 'S2': (1e-3, 8), 'S3': (1e-6, 9)}
-SEG_OPS = ['start', 'c1', 'end', 'lenS0', 'lenS1', 'lenS2', 'lenS3', 'len10', 'rev', 'revkeep']
+SEG_OPS = ['start', 'c1', 'end', 'lenS0', 'lenS1', 'lenS2', 'lenS3', 'len10', 'rev', 'revkeep', 'obs']
+SEG_OPS_H = ['start', 'c1', 'end', 'lenS0', 'lenS1', 'rev', 'obs']       # hash-colliding kinds
+SEG_QUERIES = [
+    ('point', lambda x: x.point(0.3)),
+    ('poly', lambda x: [complex(c) for c in x.poly(return_coeffs=True)]),
+    ('poly-eval', lambda x: complex(x.poly()(0.3))),
+    ('points', lambda x: [complex(z) for z in x.points([0.2, 0.7])]),
+    ('derivative', lambda x: x.derivative(0.4)),
+    ('derivative2', lambda x: x.derivative(0.4, 2)),
+    ('bbox', lambda x: x.bbox()),
+    ('bpoints', lambda x: x.bpoints()),
+    ('unit_tangent', lambda x: x.unit_tangent(0.6)),
+]
+
+
+def seg_observe(s):
+    out = {}
+    for name, fn in SEG_QUERIES:
+        try:
+            out[name] = canon(fn(s))
+        except Exception as e:      # noqa
+            out[name] = ('EXC', type(e).__name__)
+    return out
 
 
 def run_seg_history(cfg, kind, ops):
-    """reassign control points / length with several tolerances / reversed() on
-    one segment; every length answer is compared with a fresh segment's."""
+    """reassign control points / length with several tolerances / reversed() /
+    the other queries (op 'obs': point, poly, points, derivative, bbox, bpoints,
+    ==, hash) on one segment; every answer is compared with a fresh segment's."""
     P = impl()
     P._quad_available = cfg
+    k0 = kind[0]
     s = build(kind)
     viols = []
     inherited = False          # s is a reversed() copy still holding the entry it was given
     stale_at_rev = False       # ... and that entry was already out of date for the original
     zs = [3 - 2j, 0.5 + 4j, -1 - 1j]
     zi = 0
+    hcount = {}
+    last_len = None            # (arguments, canonical value) of the previous length call on this object
+    reassigned = False         # a control point was reassigned since
     cops, cobs, cdatas = [], [], {seg_data(s)}
     init_data = seg_data(s)
+
+    def length_info(x):
+        li = getattr(x, '_length_info', None)
+        return li if isinstance(li, dict) else {}
+
     for i, o in enumerate(ops):
         cdatas.add(seg_data(s))
         if o in ('start', 'c1', 'end'):
-            z = zs[zi % 3]
-            zi += 1
+            if kind in HVALS:
+                vals = HVALS[kind].get(o)
+                if vals is None:
+                    continue
+                z = vals[hcount.get(o, 0) % 2]
+                hcount[o] = hcount.get(o, 0) + 1
+            else:
+                z = zs[zi % 3]
+                zi += 1
+            if o == 'c1' and k0 not in ('Q', 'C'):
+                continue
             cops.append((o, z))
+            reassigned = True
             if o == 'start':
                 s.start = z
             elif o == 'end':
                 s.end = z
-            elif kind == 'Q':
+            elif k0 == 'Q':
                 s.control = z
-            elif kind == 'C':
+            elif k0 == 'C':
                 s.control1 = z
+        elif o == 'obs':
+            if k0 == 'A':
+                continue
+            f = fresh_copy(s)
+            got, want = seg_observe(s), seg_observe(f)
+            for name, _ in SEG_QUERIES:
+                if got[name] != want[name]:
+                    viols.append(('segment-%s-stale' % name, '%s %s: %s = %r, fresh segment %r'
+                                  % (kind, list(ops[:i + 1]), name, got[name], want[name]), i))
+            try:
+                if not (s == f and f == s) or (s != f):
+                    viols.append(('segment-eq-stale', '%s %s: the segment does not compare equal to a fresh '
+                                  'segment with its control points' % (kind, list(ops[:i + 1])), i))
+                elif hash(s) != hash(f):
+                    viols.append(('segment-hash-stale', '%s %s: equal to a fresh segment but hash differs'
+                                  % (kind, list(ops[:i + 1])), i))
+            except Exception as e:      # noqa
+                viols.append(('segment-eq-hash-raises', '%s %s: ==/hash raised %s' % (kind, list(ops[:i + 1]), type(e).__name__), i))
         elif o.startswith('len'):
             if o == 'len10':
-                if kind == 'A':
+                if k0 == 'A':
                     continue
                 a, kw = (1, 0), {}
             else:
@@ -1013,47 +1112,54 @@ def run_seg_history(cfg, kind, ops):
                 a, kw = (0, 1), {'error': e, 'min_depth': d}
             f = fresh_copy(s)
             c = seg_cache(s)
-            before = dict(s._length_info) if kind in ('C', 'Q') else None
+            before = dict(length_info(s)) if k0 in ('C', 'Q') else None
             rawlen = s.length(*a, **kw)
             got = canon(rawlen)
             if kw:
                 cops.append(('len', (kw['error'], kw['min_depth'])))
                 cobs.append(float(rawlen))
             want = canon(f.length(*a, **kw))
-            recomputed = before is not None and dict(s._length_info) != before
+            recomputed = before is not None and dict(length_info(s)) != before
             if got != want:
-                same_tol = (not kw) or c is None or c[0] != 'C' or c[2] == (kw['error'], kw['min_depth'])
-                if inherited and not recomputed and (stale_at_rev or same_tol):
+                known = c is not None and c[0] == 'C'
+                same_tol = (not kw) or not known or c[2] == (kw['error'], kw['min_depth'])
+                if reassigned and last_len == ((a, tuple(sorted(kw.items()))), got) and not inherited:
+                    # the value from before the reassignment, for the same arguments
+                    key = 'segment-length-cache-key-stale'
+                elif c is not None and c[0] == '?':
+                    key = 'segment-length-cache-unknown'
+                elif inherited and not recomputed and (stale_at_rev or same_tol):
                     key = 'reversed-rekeys-stale-length' if stale_at_rev else 'reversed-copy-inherits-length-cache'
-                elif kind == 'A':
+                elif k0 == 'A':
                     key = 'arc-cache-ignores-tolerance'
-                elif kind == 'C' and c is not None and kw:
+                elif k0 == 'C' and known and kw and c[1] != seg_data(s):
+                    key = 'cubic-cache-key-stale'        # the entry is for other control points, yet it was used
+                elif k0 == 'C' and known and kw:
                     key = 'cubic-cache-error-test-inverted' if c[2][0] > kw['error'] else 'cubic-cache-deeper-min-depth-reused'
                 else:
                     key = 'unclassified-segment-length'
                 viols.append((key, '%s %s: length%r %r = %r, fresh segment %r' % (kind, list(ops[:i + 1]), a, kw, got, want), i))
             if recomputed:
                 inherited = False
+            last_len, reassigned = ((a, tuple(sorted(kw.items()))), got), False
         elif o in ('rev', 'revkeep'):
             stale = False
-            if kind in ('C', 'Q'):
-                li = s._length_info
-                stale = bool(li['length']) and li['bpoints'] != s.bpoints()
+            if k0 in ('C', 'Q'):
+                li = length_info(s)
+                stale = bool(li.get('length')) and li.get('bpoints') != s.bpoints()
             was_inherited = inherited
             r = s.reversed()
-            if kind != 'A':
+            if k0 != 'A':
                 cops.append((o, None))
                 cdatas.add(seg_data(r))
             if o == 'rev':
                 s = r
-                if kind in ('C', 'Q') and bool(r._length_info['length']):
+                last_len = None
+                if k0 in ('C', 'Q') and bool(length_info(r).get('length')):
                     stale_at_rev = stale or (was_inherited and stale_at_rev)
                     inherited = True
                 else:
                     inherited = False
-            elif kind in ('C', 'Q') and bool(s._length_info['length']):
-                # the original's shared entry has been re-keyed to the reversed control points
-                pass
     cdatas.add(seg_data(s))
     run_seg_history.case = {'init': init_data, 'ops': cops, 'obs': cobs, 'datas': cdatas, 'kind': kind}
     return viols
@@ -1070,14 +1176,16 @@ def seg_jobs(tier):
     n = 0
     for cfg in (True, False):
         depth = seg_depth(tier, cfg)
-        for kind in ('L', 'Q', 'C', 'A'):
-            ops_k = SEG_OPS if kind != 'A' else ['lenS0', 'lenS1', 'lenS2', 'lenS3', 'revkeep']
+        kinds = ['L', 'Q', 'C', 'A', 'Lh', 'Qh', 'Ch'] + (['Ch2'] if cfg else [])   # Ch2: huge control point, quadrature only
+        for kind in kinds:
+            ops_k = SEG_OPS_H if kind in HVALS else (SEG_OPS if kind != 'A' else ['lenS0', 'lenS1', 'lenS2', 'lenS3', 'revkeep'])
             for d in range(1, depth + 1):
                 for ops in itertools.product(ops_k, repeat=d):
-                    if ops[-1].startswith('len'):
+                    if ops[-1].startswith('len') or ops[-1] == 'obs':
                         n += 1
                         jobs.append(('seg', cfg, kind, list(ops),
-                                     kind in ('C', 'A') and (d <= 3 or (d == 4 and (tier != 'quick' or n % 3 == 0)))))
+                                     kind in ('C', 'A', 'Ch') and ops[-1] != 'obs'
+                                     and (d <= 3 or (d == 4 and (tier != 'quick' or n % 3 == 0)))))
     return jobs
 
 
@@ -1179,7 +1287,7 @@ def run(rep, tier, seed, replay=None):
             # configuration True (scipy quadrature): exhaustive to `depth`.  Configuration False
             # (recursive subdivision, ~70 ms per default-tolerance length): exhaustive to depth-1,
             # the deepest level by a deterministic stride.
-            stride_false = 13 if tier == 'quick' else 29
+            stride_false = 17 if tier == 'quick' else 29
             case_stride = 47 if tier == 'quick' else 197
             k = 0
             for h in histories(depth):
